@@ -57,7 +57,9 @@ func (t *TxnOffsetCommitResponse) decode(pd packetDecoder, version int16) (err e
 			return err
 		}
 
-		t.Topics[topic] = make([]*PartitionError, m)
+		if m >= 0 {
+			t.Topics[topic] = make([]*PartitionError, m)
+		}
 
 		for j := 0; j < m; j++ {
 			t.Topics[topic][j] = new(PartitionError)
